@@ -1,8 +1,6 @@
 #!/bin/sh
-# Offline setup: make sure hypothesis is importable by /venv/bin/python (it normally already is).
+# Offline setup: make sure hypothesis (required) and atheris (optional, thorough tier) are importable by /venv/bin/python; every check does the same on its own.
 HERE="$(cd "$(dirname "$0")" && pwd)"
 cd "$HERE" || exit 2
-if ! /venv/bin/python -c "import hypothesis" 2>/dev/null; then
-  PIP_NO_INDEX=1 /venv/bin/pip install --no-index --find-links /opt/veriftools/wheels --target "$HERE/.deps" hypothesis || exit 2
-fi
+. "$HERE/ensure_deps.sh"
 PYTHONPATH="$HERE/.deps" /venv/bin/python -c "import hypothesis, pydantic, sys; sys.path.insert(0, '/repo'); import operon_ai; print('setup ok: hypothesis', hypothesis.__version__)" || exit 2
